@@ -24,14 +24,14 @@ package fixedtree
 // proved node, then the proved node and its sibling (in tree order), then
 // pairs of ancestors up to the root
 //@ func (Proof).filterNodes
-//@   prop C12
+//@   prop C12, C13
 //@   requires len(p.nodes) < 4611686018427387904 && forall(k, 0 <= k && k < len(p.nodes) && k > 2 ==> p.nodes[k] != nil)
 //@   ensures [size] len(r0) <= len(p.nodes) + 2
 //@   ensures [found] len(r0) >= 1 ==> len(r0) >= 3 && ((r0[2] != nil && r0[2].Key() == key) || (len(r0) >= 4 && r0[3] != nil && r0[3].Key() == key))
 
 // used modularly by the callers of a proof (C13)
 //@ func (Proof).Prove
-//@   prop C12
+//@   prop C12, C13
 //@   pure
 //@   requires len(p.nodes) < 4611686018427387904 && forall(k, 0 <= k && k < len(p.nodes) && k > 2 ==> p.nodes[k] != nil)
 //@   ensures [local-key-bound] r0 == nil ==> len(nodes) >= 3 && exists(j, 2 <= j && j <= 3 && j < len(nodes) && nodes[j] != nil && nodes[j].Key() == key && !nodes[j].IsEmpty() && snd(nodeHash(nodes[j], nodes[0], nodes[1])) == nil && nodes[j].Hash().Equal(fst(nodeHash(nodes[j], nodes[0], nodes[1]))))
